@@ -388,4 +388,14 @@ theorem packGroups_spec (limit tn td : Nat) : ∀ (groups : List (List Nat)) (cu
         exact ⟨by simp [i1], i2⟩
 
 
+theorem reshape_merge_ones_aux {α} (cc : List Nat) : ∀ (rows : List (List α)), (∀ r ∈ rows, r.length = sum cc) →
+    reshapeMergeOnesBlocks cc rows = splitBy ((List.replicate rows.length cc).flatten) rows.flatten
+  | [], _ => by simp [reshapeMergeOnesBlocks, splitBy]
+  | r :: rows, h => by
+    have ih := reshape_merge_ones_aux cc rows (fun r hr => h r (by simp [hr]))
+    unfold reshapeMergeOnesBlocks at ih ⊢
+    simp only [List.flatMap_cons, List.length_cons, List.replicate_succ, List.flatten_cons]
+    rw [splitBy_append cc _ r rows.flatten (h r (by simp)), ih]
+
+
 end Dask.Structural
